@@ -127,20 +127,22 @@ func runM4Sequence(vb *vbuf, init int, seq [][]int) {
 }
 
 func runMPEG4Video(thorough bool) int64 {
-	l1, l2 := 2, 4
+	l1, l2, ls := 2, 3, 4
 	if thorough {
-		l1, l2 = 3, 5
+		l1, l2, ls = 3, 4, 5
 	}
 	first := allLists(len(m4segs), l1)
 	second := allLists(len(m4segs), l2)
 	var n int64
 	for init := 0; init <= 1; init++ {
 		vb := &vbuf{}
-		for _, a := range second {
+		for _, a := range allLists(len(m4segs), ls) {
 			runM4Sequence(vb, init, [][]int{a})
 			n++
 		}
 		vb.flush()
+	}
+	for init := 0; init <= 1; init++ {
 		vbs := make([]vbuf, len(first))
 		vcommon.Parallel(len(first), func(i int) {
 			for _, b := range second {
@@ -243,14 +245,14 @@ func runAV1(thorough bool) int64 {
 func ruleText(thorough bool) string {
 	if thorough {
 		return "H.264 (9 NALU symbols) and H.265 (12 symbols): x initial description parameters {none, all}: every single access unit of <=3 NALUs, " +
-			"every pair (a1 of <=3 [H.265: <=2] NALUs, a2 of <=3), every triple (a1,a2 of <=2 [H.265: 1] NALUs, a3 of <=3); " +
-			"MPEG-4 Video (7 segment symbols: VOP, GOV, VOS, VOL1, VOL2, VO, stray byte): every frame of <=5 segments and every pair (<=3, <=5) x initial config {none, VOS+VO+VOL1}; " +
+			"every pair (a1 of <=3 [H.265: <=2] NALUs, a2 of <=3), every triple (a1,a2 of 1 NALU, a3 of <=3); " +
+			"MPEG-4 Video (7 segment symbols: VOP, GOV, VOS, VOL1, VOL2, VO, stray byte): every frame of <=5 segments and every pair (<=3, <=4) x initial config {none, VOS+VO+VOL1}; " +
 			"AV1 (8 OBU symbols, 2 temporal delimiter forms): every temporal unit of <=6 OBUs. " +
 			"Each sequence on a fresh real Stream; distinct = (codec, parameter state before, unit shape by NALU class, parameters prepended, description changed, delivered length)"
 	}
 	return "H.264 (9 NALU symbols) and H.265 (12 symbols): x initial description parameters {none, all}: every single access unit of <=3 NALUs and " +
 		"every pair (a1 of <=2 [H.265: 1] NALUs, a2 of <=3); " +
-		"MPEG-4 Video (7 segment symbols: VOP, GOV, VOS, VOL1, VOL2, VO, stray byte): every frame of <=4 segments and every pair (<=2, <=4) x initial config {none, VOS+VO+VOL1}; " +
+		"MPEG-4 Video (7 segment symbols: VOP, GOV, VOS, VOL1, VOL2, VO, stray byte): every frame of <=4 segments and every pair (<=2, <=3) x initial config {none, VOS+VO+VOL1}; " +
 		"AV1 (8 OBU symbols, 2 temporal delimiter forms): every temporal unit of <=4 OBUs. " +
 		"Each sequence on a fresh real Stream; distinct = (codec, parameter state before, unit shape by NALU class, parameters prepended, description changed, delivered length)"
 }
